@@ -14,10 +14,10 @@ checks = {
    "Every history of chain events (12 block templates, reorgs of depth<=k with 4 branch patterns) and notification deliveries up to the stated depth is executed on the real follower code over a real chain database; in every reached state the queue is drained and all ledger queries are compared with a reference ledger and a consensus-library maturity oracle. Exhaustive within the bounds reported in the evidence.",
    "§5 C01"),
  "C02": (MC, "reqenum", "bounded-exhaustive request enumeration over UTXO shapes from real chain histories with a clause-by-clause oracle",
-   "For 9 wallet UTXO shapes reached through real chain histories, the full product of automatic-selection requests, two-call sequences and explicit-input requests is executed on the real builder; every answer is checked clause by clause against the reference ledger (ownership, no duplicates, eligibility, outputs, change address, fee = inputs - outputs, relay minimum for the signed size, success/failure).",
+   "For 17 wallet UTXO shapes (incl. 700 small coins, two outputs of one transaction, reorged-away, matured staking, restarted) reached through real chain histories, the full product of automatic-selection requests, two-call sequences and explicit-input requests is executed on the real builder; every answer is checked clause by clause against the reference ledger (ownership, no duplicates, eligibility, outputs, change address, fee = inputs - outputs, relay minimum for the signed size, success/failure).",
    "§5 C02"),
  "C03": (MC, "reqenum", "bounded-exhaustive (transaction x sighash flag x passphrase family) enumeration with an independent script-engine oracle",
-   "For the same shapes, wallet-built transactions (1..n inputs, payload/lock-time variants, staking/binding withdrawals) x 6 sighash flags are signed with the right and 7 wrong passphrases; the signed bytes must equal the input except for witnesses, every input must pass an independent consensus script-engine run, and wrong passphrases must return nothing and leave no witness.",
+   "For the same shapes, wallet-built transactions (1..n inputs, payload/lock-time variants, staking/binding withdrawals) x 6 sighash flags are signed with the right and 13 wrong passphrases (incl. white-space padded variants of the right one); the signed bytes must equal the input except for witnesses, every input must pass an independent consensus script-engine run, and wrong passphrases must return nothing and leave no witness.",
    "§5 C03"),
  "C04": (MC, "histbfs", "explicit-state BFS over create/address/sign/export/import/restart/passphrase-change sequences across instances with an independent key-derivation oracle",
    "Every sequence of wallet-identity operations up to the stated depth across up to three instances runs on the real keystore; ids, every address index, NewAddress results and signatures are compared with an independent BIP-39/BIP-32/script derivation and across instances.",
